@@ -343,6 +343,58 @@ class Graph:
         r = self.reachable_from(src, avoid=through)
         return not any(t.id in r for t in targets)
 
+    def unit_ctx(self, ctx, anchors):
+        """The nearest context (ctx itself or an ancestor) whose inlined body - itself or its descendants - contains one of the
+        anchor points. Used to pair events that belong to the same inlined copy of a procedure (e.g. the Consume and the Export of
+        one export cycle) even when one of them was moved into a private helper."""
+        def contains(c, p):
+            x = p.ctx
+            while x is not None:
+                if x is c:
+                    return True
+                x = x.parent
+            return False
+        c = ctx
+        while c is not None:
+            if any(contains(c, a) for a in anchors):
+                return c
+            c = c.parent
+        return self.root_ctx
+
+    def canon_var(self, var_id):
+        """ids of the variables a by-reference parameter of an inlined helper is bound to in its callers (transitively); the id
+        itself when it is not such a parameter"""
+        out = set()
+        work = [var_id]
+        seen = set()
+        while work:
+            v = work.pop()
+            if v in seen:
+                continue
+            seen.add(v)
+            bound = False
+            for c in self.ctxs:
+                if c.call is None or c.lambda_of:
+                    continue
+                for pi, prm in enumerate(c.f.params):
+                    if prm['id'] == v:
+                        args = c.call.get('args', [])
+                        if pi < len(args) and args[pi] is not None and args[pi] >= 0:
+                            n = c.caller.nodes[args[pi]]
+                            hops = 0
+                            while hops < 6 and n['k'] in ('cast', 'unop', 'call', 'construct'):
+                                nxt = n.get('e') if n['k'] in ('cast', 'unop') else ((n.get('args') or [None])[0] if len(n.get('args') or []) == 1 else None)
+                                if nxt is None or nxt < 0:
+                                    break
+                                n = c.caller.nodes[nxt]
+                                hops += 1
+                            if n['k'] == 'ref' and 'id' in n:
+                                work.append(n['id'])
+                                bound = True
+            if not bound:
+                out.add(v)
+        return out
+
     def describe_path(self, pts, limit=12):
         out = []
         lastl = None
